@@ -542,6 +542,60 @@ static void op_binwriter(const std::string &desc, const std::string &val, out &o
     o.tag("binwriter");
 }
 
+// round 3b: binary_buffer_writer on a caller buffer of <cap> bytes (exactly fitting, one byte short, too small, spare
+// room).  Clauses judged on the real code, none of them through the Lean model:
+//   never writes outside [buf, buf+cap)   - the buffer is a heap block of exactly cap bytes (ASan) and every byte of it
+//                                            behind the written prefix keeps the fill byte, for two different fills
+//   what fits is the encoding's prefix    - buf[0, min(cap, L)) == the first bytes of the reference encoding (L bytes)
+//   the writer stops at min(cap, L)       - cursor (when the writer exposes one) and the behavioural extent
+//   an exactly fitting buffer is complete - cap >= L: the buffer decodes back to the value, L bytes consumed
+static void op_bufwrite(const std::string &desc, const std::string &val, const std::string &caps, out &o)
+{
+    DT dt;
+    DV dv;
+    if (!dt_of(desc, dt) || !dv_of(dt, val, dv)) { o.result = "bad-op"; o.fail("unparsable op"); return; }
+    long probe = 0;
+    if (!a_bufwrite(desc, dv, nullptr, 0, probe)) { o.result = "unsupported"; o.fail("no fixed-buffer writer for this type in the harness: " + desc); return; }
+    size_t cap = strtoull(caps.c_str(), 0, 10);
+    bytes ref;
+    ref_enc(dt, dv, ref);
+    size_t L = ref.size(), m = std::min(cap, L);
+    const uint8_t fill[2] = {0xEE, 0x11};
+    bytes got[2];
+    long cur[2] = {-1, -1};
+    for (int k = 0; k < 2; k++)
+    {
+        uint8_t *p = (uint8_t *)malloc(cap); // exactly cap bytes (also for cap = 0): ASan reports every write outside
+        if (cap) memset(p, fill[k], cap);
+        a_bufwrite(desc, dv, p, cap, cur[k]);
+        got[k].assign(p, p + cap);
+        free(p);
+    }
+    size_t ext = 0; // behavioural extent: the longest prefix on which the two runs agree (the fills differ)
+    while (ext < cap && got[0][ext] == got[1][ext]) ext++;
+    for (size_t i = 0; i < m; i++)
+        if (got[0][i] != ref[i] || got[1][i] != ref[i]) { o.fail("the bytes that fit are not the prefix of the encoding (offset " + std::to_string(i) + ")"); break; }
+    for (size_t i = m; i < cap; i++)
+        if (got[0][i] != fill[0] || got[1][i] != fill[1]) { o.fail("a byte behind the encoding was written (offset " + std::to_string(i) + ")"); break; }
+    if (ext != m) o.fail("written extent " + std::to_string(ext) + " != min(capacity, encoding length) " + std::to_string(m));
+    for (int k = 0; k < 2; k++)
+        if (cur[k] >= 0 && (size_t)cur[k] != m) { o.fail("writer position " + std::to_string(cur[k]) + " != min(capacity, encoding length) " + std::to_string(m)); break; }
+    if (cur[0] < 0) tag1(o, "writer-pos-hidden");
+    if (cap >= L)
+    {
+        hv::exact_buf eb(bytes(got[0].begin(), got[0].begin() + L));
+        size_t consumed = 0;
+        DV back = a_decode_raw(desc, eb.p, eb.n, consumed);
+        if (show(dt, back) != show(dt, dv)) o.fail("the bytes the fixed-buffer writer stored do not decode back to the value");
+        if (consumed != L) o.fail("decode of the fixed-buffer writer's bytes consumed " + std::to_string(consumed) + " of " + std::to_string(L));
+    }
+    o.result = hex(got[0]) + " " + std::to_string(cur[0] >= 0 ? (size_t)cur[0] : ext);
+    tag1(o, "bufwriter");
+    tag1(o, cap == L ? "bufwriter-exact-fit" : cap + 1 == L ? "bufwriter-one-short" : cap < L ? "bufwriter-too-small" : "bufwriter-spare");
+    if (cap == 0) tag1(o, "bufwriter-cap0");
+    tag_value(dt, dv, o);
+}
+
 // archive::data<T>(xs, N) inside a reflected type: raw image of N scalars, no count
 static void op_data(const std::string &key, const std::string &val, const std::string &resthex, out &o)
 {
@@ -773,8 +827,8 @@ static void op_tseq(char st, const std::vector<std::string> &descs, const std::v
 }
 
 // widths of the counters / size parameters the model embeds, read out of the compiled code
-std::string a_consts();
-std::string s_consts();
+std::string a_consts(std::vector<std::string> &tags);
+std::string s_consts(std::vector<std::string> &tags);
 
 static void run_op(const std::vector<std::string> &w, const std::string &, out &o);
 // ops run BEFORE main() (static-initialisation order): a harness object of init_priority(101) executes these lines
@@ -824,7 +878,15 @@ static void run_op(const std::vector<std::string> &w, const std::string &, out &
         o.tag("pre-main");
         return;
     }
-    if (op == "consts" && w.size() == 1) { o.result = a_consts() + " " + s_consts(); return; }
+    if (op == "consts" && w.size() == 1)
+    {
+        // compared: the width of the count on the wire (the property's "16-bit count"); tags: internal widths
+        std::vector<std::string> tg;
+        std::string ra = a_consts(tg);
+        o.result = ra + " " + s_consts(tg);
+        for (auto &t : tg) o.tag(t.c_str());
+        return;
+    }
     if ((op == "ia" || op == "is") && w.size() == 6) return op_into(op[1], w[1], w[2], w[3], w[4], w[5], o);
     if ((op == "tseqa" || op == "tseqs") && w.size() >= 4 && w.size() % 2 == 0)
     {
@@ -857,6 +919,7 @@ static void run_op(const std::vector<std::string> &w, const std::string &, out &
     if (op == "cap" && w.size() == 7) return op_capped(w[1].size() == 1 ? w[1][0] : '?', w[2], w[3], w[4], w[5], w[6], o);
     if (op == "capt" && w.size() == 6) return op_capped_trunc(w[1], w[2], w[3], w[4], w[5], o);
     if (op == "bw" && w.size() == 3) return op_binwriter(w[1], w[2], o);
+    if (op == "bwc" && w.size() == 4) return op_bufwrite(w[1], w[2], w[3], o);
     if (op == "dat" && w.size() == 4) return op_data(w[1], w[2], w[3], o);
     if ((op == "wa" || op == "ws") && w.size() == 4) return op_wrap(op[1], w[1], w[2], w[3], o);
     if (op == "sl" && w.size() == 3) return op_loads(w[1], w[2], o);
@@ -1457,6 +1520,42 @@ static void gen(rng &r, const std::string &tier)
             for (int j = 0; j < k; j++) ns += (j ? "," : "") + std::to_string(sz[r.below(7)]);
             printf("sl %s %s\n", hex(gen_bytes(r, r.below(20))).c_str(), ns.c_str());
         }
+    }
+    // round 3b: binary_buffer_writer into exactly fitting / one-byte-short / too small / larger caller buffers, every
+    // hand-written archive type; every capacity 0..L+1 for short encodings
+    {
+        size_t hn = stack_a().n_hand();
+        for (size_t di = 0; di < hn; di++)
+        {
+            const std::string &d = fa[di];
+            DT t;
+            dt_of(d, t);
+            long probe = 0;
+            if (!a_bufwrite(d, DV(), nullptr, 0, probe)) continue;
+            for (int i = 0; i < (th ? 10 : 1); i++)
+            {
+                DV v = gen_val(t, r, i % 4 == 3 ? 300 : 4);
+                bytes e;
+                ref_enc(t, v, e);
+                size_t L = e.size();
+                std::string sv = show(t, v);
+                std::vector<size_t> caps = {L, L + 1, L + 1 + r.below(40)};
+                if (L) { caps.push_back(L - 1); caps.push_back(r.below(L)); }
+                if (L <= (th ? 64u : 20u) && (th || di % 4 == 0))
+                    for (size_t c = 0; c <= L + 1; c++) caps.push_back(c);
+                else if (i % 2 == 0) caps.push_back(0);
+                for (size_t c : caps) printf("bwc %s %s %zu\n", d.c_str(), sv.c_str(), c);
+            }
+        }
+        // one dump_data call that straddles the end (65535-byte string), an encoding of 320 KiB
+        DT ts, tv;
+        dt_of("str", ts); dt_of("V(u64)", tv);
+        DV big = DV::str(gen_bytes(r, 65535));
+        for (size_t c : {(size_t)65537, (size_t)65536, (size_t)2, (size_t)1, (size_t)40000})
+            if (th || c == 65536 || c == 2) printf("bwc str %s %zu\n", show(ts, big).c_str(), c);
+        DV bv = vec_of(6, 40000, r, false);
+        for (size_t c : {(size_t)320002, (size_t)320001, (size_t)65536})
+            if (th || c == 320001) printf("bwc V(u64) %s %zu\n", show(tv, bv).c_str(), c); // quick: the one-byte-short buffer only
     }
     // (9) round 3
     puts("consts");
